@@ -58,6 +58,8 @@ type WorkerSummary struct {
 	Violations  []ViolationReport `json:"violations"`
 	ViolCounts  map[string]int    `json:"viol_counts"`
 	Samples     []json.RawMessage `json:"samples"`
+	Recycled    bool              `json:"recycled,omitempty"`
+	NextIndex   int               `json:"next_index,omitempty"`
 	LeakRuns    int               `json:"leak_runs"`
 	LeakSample  []string          `json:"leak_sample,omitempty"`
 	DetLog      []string          `json:"detlog,omitempty"`
@@ -144,7 +146,7 @@ func TestWorker(t *testing.T) {
 	fps := map[uint64]struct{}{}
 	reported := map[string]int{}
 	start := time.Now()
-	for i := 0; i < maxRuns; i++ {
+	for i := envInt("VERIF_RUN_FROM", 0); i < maxRuns; i++ {
 		if time.Since(start) > budget {
 			break
 		}
@@ -214,6 +216,15 @@ func TestWorker(t *testing.T) {
 		}
 		if i%64 == 63 {
 			runtime.GC()
+			// goroutines wedged by a genuine defect stay parked in their dead
+			// bubble; recycle the process before they pile up
+			var ms runtime.MemStats
+			runtime.ReadMemStats(&ms)
+			if runtime.NumGoroutine() > 4000 || ms.HeapAlloc > 3<<30 {
+				sum.Recycled = true
+				sum.NextIndex = i + 1
+				break
+			}
 		}
 	}
 	sum.WallS = time.Since(start).Seconds()
@@ -386,4 +397,37 @@ func TestReplay(t *testing.T) {
 		}
 	}
 	fmt.Printf("NOT-REPRODUCED property=%s class=%s site=%s\n", rf.Property, rf.Class, rf.Site)
+}
+
+// TestOne re-executes one run seed of a family and prints its history
+// (developer aid): VERIF_FAMILY, VERIF_PROP, VERIF_ONE=<run seed>.
+func TestOne(t *testing.T) {
+	one := os.Getenv("VERIF_ONE")
+	if one == "" {
+		t.Skip()
+	}
+	fam := families[os.Getenv("VERIF_FAMILY")]
+	seed, _ := strconv.ParseUint(one, 10, 64)
+	runtime.GOMAXPROCS(1)
+	g := rand.New(rand.NewPCG(seed, 0x5eed))
+	tier := os.Getenv("VERIF_TIER")
+	if tier == "" {
+		tier = "quick"
+	}
+	params := fam.Gen(g, tier)
+	pj, _ := json.Marshal(params)
+	fmt.Println("PARAMS", string(truncJSON(pj, 4000)))
+	res := RunOne(t, fam, params, seed, RunOpts{Strategy: -1, KeepHist: envInt("VERIF_HIST", 200), Record: true})
+	for _, ev := range res.HistTail {
+		fmt.Printf("  %4d %-12s call=%d %s\n", ev.N, ev.Kind, ev.Call, ev.Info)
+	}
+	for _, v := range violationsFor(os.Getenv("VERIF_PROP"), res) {
+		fmt.Println("VIOL", v.Class, v.Site, v.Detail)
+	}
+	fmt.Println("steps", res.Steps, "infra", res.Infra, "leaked", res.Leaked)
+	if os.Getenv("VERIF_TAPE") != "" {
+		for _, x := range res.Tape {
+			fmt.Println("   ", x)
+		}
+	}
 }
